@@ -645,10 +645,10 @@ fn gen_part2(thorough: bool, rng: &mut Rng, out: &mut dyn FnMut(String), enum_ki
         }
     }
     // ---- (8a) exact values: strictly descending runs closed by one element that is not smaller (whole lane below 32 elements, every
-    //      aligned run of the run-merging sort above), every length 2..=130 (thorough ..=300) and the lengths around the run sizes
-    let mut lens: Vec<usize> = (2..=(if thorough { 300 } else { 130 })).collect();
+    //      aligned run of the run-merging sort above), every length 2..=130 (thorough ..=200) and lengths around the run sizes (255..257; thorough 300, 511..513, 528)
+    let mut lens: Vec<usize> = (2..=(if thorough { 200 } else { 130 })).collect();
     lens.extend([255usize, 256, 257]);
-    if thorough { lens.extend([511usize, 512, 513, 528, 1000, 1001]); }
+    if thorough { lens.extend([300usize, 511, 512, 513, 528]); }
     for &n in &lens {
         for bump in 0..3 {
             let v = descending_runs(n, bump);
@@ -1162,5 +1162,12 @@ every lane over {0,1,2} of length<=4 (5); f64 lanes over {0.0,-0.0,1,NaN} of len
 String lanes incl. empty / blank / case / non-ASCII; argsort ties on lanes of 21,22,32,33,40,64,65,100,130,257,528,1030 (2100,4100) elements x 5 contents x 4 kinds x all spellings, \
 also as lanes of n-D arrays; big_shapes() (axis lengths 7..17, 300/1030/4100/4900 elements) x every axis in both spellings x all queries; lanes of 4100 (5000) \
 elements with repeated extreme values; zero_shapes() x every axis x all queries x 4 element types; valid and blank / whitespace / wrong / non-ASCII selector \
-names as &str and String on 600-element and zero-size arrays. distinct = distinct case lines; non-trivial = lane of length>=2 not already strictly increasing" });
+names as &str and String on 600-element and zero-size arrays. \
+PART 2: hidden state - same-rank shapes colliding under weak keys (polynomial hashes 31/33/37/131/257/256 with equal element count, collision_shape_pairs(), permuted axis lengths, lengths equal modulo 2^8) back to back in both orders with the same axis through sort / argsort / argmax / argmin / unique; \
+a lane and its reversed / rotated / permuted / one-off versions interleaved; refused axis or selector directly followed by the valid call; the same lane through i64,u8,i8,String,f64 back to back; A-B-A: after every case the previous case is run again and must answer bit-identically. \
+Exact values: strictly descending runs closed by an element that is not smaller (whole lane, every aligned run of the run-merging sort; lengths 2..130 (200), 255..257 (300, 511..513, 528); also as rows / columns of 2-D arrays). \
+Exact lengths: every lane length 1..300 in [2,d] (both axes) and [3,d,2] (axis 1). Ranks 6..8. \
+NATIVE REFERENCE (lane membership by coordinate arithmetic + std stable sort / rank of every element with ties in order of appearance / first extreme, first NaN wins) - compared with the model's answer on every sort / argsort / argmax / argmin case the model answers (closing refstats line: count; fails when the reference is used without >= 1000 validations in the run) and used in place of the quadratic model on `ref` cases with generator-spelled arrays: \
+[16,32,40], [4,8,16,40], [3,60,70], [26,26,26], [2,3,5,7,11,13], [130,130], [129,131], [100,200], [2,8200], [8200,2], [16385], [33000], [2,70000], [70000,2], [40,30,30], [10,11,12,13], [5,4,10,10,10], [300,300] (thorough + [70000], [140001], [7,131,151], [1,66000,2,1], [3,5,7,11,13,2]) on last and non-last axes, 4 kinds + spelled selector + both receivers, the lane lengths 49..300 of the sweep, colliding shapes above 250 elements. \
+distinct = distinct case lines; non-trivial = lane of length>=2 not already strictly increasing" });
 }
